@@ -68,6 +68,18 @@ CLAIMED = {
         technique="HIR match-arm tables + MIR data/selecting-control dependence queries",
         design_ref="DESIGN.md section 4 C28",
     ),
+    "C34": dict(
+        level="other",
+        text="Traversal completeness and uniqueness mechanisms decided structurally: resolve_placeholders resolves every body variant holding a Target explicitly and routes the rest through get_qubits_mut, which (like get_qubits) reads every Qubit-holding field of every body-capable variant; get_targets covers the same Target variants; default_target_resolver loops on membership in the avoid-set and inserts the chosen label on all paths, seeded from get_targets; default_qubit_resolver zips the IndexSet of placeholders with 0.. filtered by non-membership in the fixed-qubit set; the custom-resolver entry point resolves every instruction and rebuilds the cache. Placeholder identity semantics are not decided.",
+        technique="type-directed match coverage + CFG must-pass-through / loop-membership checks over MIR",
+        design_ref="DESIGN.md section 4 C34",
+    ),
+    "C35": dict(
+        level="other",
+        text="Who-writes and provenance for Program::simplify: the result starts from expand_calibrations(self); exactly calibrations, frames, waveforms and extern_pragma_map are written; calibrations get the empty value; frames = self.frames.intersection(used) with `used` collected from matching_frames(expanded program, instr).used over the expanded body; waveforms / extern pragmas are retained by membership in names collected from get_waveform_invocation / CALL; get_waveform_invocation covers every body variant holding a WaveformInvocation. Schedule equality before/after is not decided.",
+        technique="field-write enumeration + origin-expression provenance over MIR + type-directed coverage",
+        design_ref="DESIGN.md section 4 C35",
+    ),
     "C05": dict(
         level="other",
         text="Static rules over the parse-reachable function set: no value-changing numeric cast and no undischarged overflow assert may exist there; every Token::Float construction is dominated by the finite side of is_finite on the same value; lexical Overflow/Underflow map to nom::Err::Failure; lexical float options must not be lossy. Decides that literal-derived values cannot be wrapped/truncated/backtracked on any input; the digit-to-value computation inside `lexical` is trusted.",
